@@ -32,9 +32,13 @@ HARNESS = {"src": "harness/c05.cpp", "repo_srcs": _repo_srcs(), "flags": ["-DC05
 TIE = ("hand-written transfer programs (FcpptModel/Model/C05.lean over the machine of Model/C05/Machine.lean) + differential "
        "correspondence: the real templates instantiated with an instrumented element type (identity, live/moved-from, copy/move/read "
        "log) and its move-only twin; only the event abstraction is compared")
-RULE = ("one op = one call of one registered operation: `<op> <T|M> <nargs> <cat>:<ids>... <par>...`; both sides print the shape of the "
+RULE = ("one op = one call of one registered operation (166): `<op> <T|M> <nargs> <cat>:<ids>... <par>...`; both sides print the shape of the "
         "result, the element objects of the result and of every argument afterwards (identity, `~` = moved-from), the identities copied, "
-        "the identities move-constructed out of an argument object and the identities touched after a move. Exhaustive per operation over "
+        "the identities move-constructed out of an argument object (in-place moves included, with multiplicity), the identities touched "
+        "after a move, the live values destroyed or overwritten during the call, and how many values the user's functions made from nothing. "
+        "Functions of several arguments hand every argument on, so each argument's value category is observed on its own and all mixed "
+        "combinations are enumerated; aliasing rows pass the same object twice / a value that is an element of the container. "
+        "Exhaustive per operation over "
         "every value category of every argument (l = T&, c = T const&, r = T&& / by value, i = documented in/out), every size 0..3 "
         "(thorough: 0..5) of every container argument, present/absent and every alternative, every answer table of the user's function "
         "(keep masks, break position, output counts, key present/absent), with the copyable element type and - wherever the "
@@ -50,6 +54,10 @@ ASSUMPTIONS = [
     "std::reverse performs floor(n/2) swaps of (i, n-1-i); std::swap is three moves",
     "the user's functions are those of the harness: an rvalue is moved through (same identity), an lvalue is read and a new value "
     "(identity + 100 j) derived from it, nothing is copied",
+    "std::remove_if / std::unique: the predicate is asked once per element in order, the kept elements behind the first gap are "
+    "move-assigned once each, the rest is erased; std::vector::erase(it) move-assigns every later element one place down; "
+    "std::list / std::map erase and std::list::sort / swap touch no element",
+    "copies of a closure made inside libstdc++ algorithms (algorithm::remove captures its value by copy) count as the one captured copy",
     "operations outside the registry (Op.all) are not covered",
 ]
 TRUSTED = ["harness/c05.cpp (instrumented element type, argument construction, canonical printing) and the line protocol (vh.hpp, Proto.lean)",
@@ -470,10 +478,11 @@ def batches(rng, tier):
 MANIFEST = {
     "level_text": ("Machine-checked proof (Lean 4) over transfer programs: every registered generic operation (Op.all in "
                    "FcpptModel/Model/C05.lean) is a program over per-element transfers (move / copy / hand on as lvalue / whole-container "
-                   "move / pop / swap) that mirrors the template's control flow; for every operation, every argument size and every value "
+                   "move / pop / erase / swap / in-place shift) that mirrors the template's control flow; for every operation, every argument size and every value "
                    "category the interpreter's event abstraction satisfies rvalue_no_copy, rvalue_moved_at_most_once, no_read_after_move, "
-                   "lvalue_unchanged, result_at_most_once, conserved, accepts_move_only, nothing_lost (all but the four operations that "
-                   "drop by design) and rvalue_exactly_once_in_result (the 42 operations documented to keep all elements). The programs "
+                   "lvalue_unchanged, result_at_most_once, conserved, accepts_move_only, nothing_lost (all but the 24 operations that "
+                   "destroy values by design: dropped failures, overwriting assignments, erasure) and rvalue_exactly_once_in_result (the 72 "
+                   "operations documented to keep all elements). The programs "
                    "are tied to the code by a "
                    "differential correspondence that instantiates the real templates with an instrumented element type and its move-only "
                    "twin and enumerates all small shapes."),
